@@ -273,11 +273,31 @@ func TestVerifC16Blacklist(t *testing.T) {
 			// ---- after the ban: release validation, X keeps trying, Y forwards X's messages, node publishes
 			release()
 			vSettle(50 * time.Millisecond)
+			queuedWhileBanned := ""
 			if co.pos == "before_connect" || co.pos == "disconnected" {
+				slowOpen := c.Chance(0.5)
+				if slowOpen {
+					// a stream the node might open to X now would take half a second to come up: whatever the node sets up
+					// for X in the meantime (a queue, a place in the peer list) is there long enough to be seen
+					r.nd.h.inj.add(&vRule{op: vOpNewStream, peer: X.ID(), delay: 500 * time.Millisecond})
+				}
 				r.n.Connect(X.ID(), me)
 				vSettle(50 * time.Millisecond)
+				if slowOpen && co.route == "BlacklistPeer" {
+					if _, ok := nd.Snap().QPeers[X.ID()]; ok {
+						queuedWhileBanned = "the node created an outbound queue for X, which connected after BlacklistPeer had returned"
+					}
+					for _, p := range nd.ps.ListPeers("") {
+						if p == X.ID() {
+							queuedWhileBanned = "X, which connected after BlacklistPeer had returned, appears in ListPeers(\"\")"
+						}
+					}
+				}
 				if _, err := X.Open(me); err == nil {
 					X.Send(me, vSubRPC(true, "t"))
+				}
+				if slowOpen {
+					vSettle(600 * time.Millisecond)
 				}
 			}
 			if co.pos == "stream_in_flight" {
@@ -365,6 +385,9 @@ func TestVerifC16Blacklist(t *testing.T) {
 				}
 				if listedAtBan != "" {
 					fail(map[string]string{"kind": "listed_after_ban", "when": "at_once"}, "%s", listedAtBan)
+				}
+				if queuedWhileBanned != "" {
+					fail(map[string]string{"kind": "set_up_after_ban"}, "%s", queuedWhileBanned)
 				}
 				for _, tn := range []string{"t", ""} {
 					for _, p := range nd.ps.ListPeers(tn) {
